@@ -19,10 +19,10 @@ func init() {
 		ID: "C19",
 		Rule: "plan = command histories over all value types and 1-2 databases (overwrites, in-place growth and shrink of collections, deletes, renames, expiry with clock advances - lazy and sampler -, eviction under a memory limit in a third of the runs, FLUSHDB/FLUSHALL) with the usage figure checked after every command; " +
 			"non-trivial = at least one key existed when the figure was checked; distinct = hash of the command-name sequence and policy",
-		Gen:  genC19,
-		Run:  runC19,
-		Real: []string{"memUsed accounting in setValues/deleteKey/Flush", "KeyData.GetMem, Set.GetMem, SortedSet.GetMem", "eviction and expiry paths that delete keys", "GetServerInfo"},
-		Stub: []string{"wall clock", "goroutine scheduler choice (bookkeeping goroutines run to quiescence after each command)"},
+		Gen:         genC19,
+		Run:         runC19,
+		Real:        []string{"memUsed accounting in setValues/deleteKey/Flush", "KeyData.GetMem, Set.GetMem, SortedSet.GetMem", "eviction and expiry paths that delete keys", "GetServerInfo"},
+		Stub:        []string{"wall clock", "goroutine scheduler choice (bookkeeping goroutines run to quiescence after each command)"},
 		Assumptions: []string{"the per-entry accounted size is the implementation's own GetMem of the stored value plus key header and bytes: the property is about the figure being a function of the dataset, not about the byte constants"},
 	})
 }
